@@ -145,6 +145,11 @@ func (m MethodScope) populateImports(t types.Type, imports map[string]*Package) 
 			m.populateImports(t.EmbeddedType(i), imports)
 		}
 
+	case *types.Union: // type terms of a constraint
+		for i := 0; i < t.Len(); i++ {
+			m.populateImports(t.Term(i).Type(), imports)
+		}
+
 	case *types.Basic:
 		// unsafe.Pointer is the only basic type that lives in a package.
 		if t.Kind() == types.UnsafePointer {
